@@ -77,7 +77,7 @@ class Gen:
         self.cmd_used = set()
         self.stats = {"tables": 0, "opts": 0, "types": [0] * 5, "cmdline": 0, "spoof": 0, "env": 0, "cfg": 0,
                       "words": 0, "abbrev": 0, "cluster": 0, "eqform": 0, "unknown": 0, "malformed": 0,
-                      "badvalue": 0, "dashdash": 0, "plus_words": 0, "cfg_missing_arg": 0, "reuse": 0, "reordered": 0}
+                      "badvalue": 0, "dashdash": 0, "plus_words": 0, "cfg_missing_arg": 0, "reuse": 0, "reordered": 0, "spoof_twice": 0, "prefix_pair_cases": 0}
 
     # ---------------------------------------------------------------- table
     def table(self, case_id):
@@ -531,8 +531,71 @@ class Gen:
             txt += "\n"
         return txt
 
+    # ---------------------------------------------------------------- prefix pairs
+    PAIRS = [("--seed", "--seedfile"), ("--mul", "--multi"), ("--out", "--output"), ("--n", "--no-b"), ("--max", "--max-n"),
+             ("--a", "--ab"), ("--in", "--inc"), ("--x1", "--x12")]
+
+    def prefix_pair_case(self, cid):
+        """an option whose full name is a proper prefix of another option's name, used in every command-line form:
+        `--opt=value`, `--opt value`, exact name as flag, and abbreviations of the longer name"""
+        rng = self.rng
+        short, long_ = rng.choice(self.PAIRS)
+        tys = rng.choice([(INT, STRING), (STRING, INT), (INT, NONE), (NONE, INT), (REAL, STRING), (STRING, NONE), (NONE, NONE), (CHAR, INT), (INT, INT)])
+        rows = [{"name": short, "type": tys[0]}, {"name": long_, "type": tys[1]}]
+        if rng.random() < 0.5:
+            rows.reverse()                                   # the longer name may come first in the table
+        extra = [{"name": "-a", "type": NONE}, {"name": "-n", "type": INT}, {"name": "--zeta", "type": STRING}]
+        rng.shuffle(extra)
+        rows = rows + extra[:rng.randrange(0, 4)]
+        if rng.random() < 0.5:
+            rng.shuffle(rows)
+        t = Table()
+        for r in rows:
+            o = {"name": r["name"], "type": r["type"], "def": None, "env": None, "range": None, "tog": None, "req": None, "inc": None}
+            self.fill_range_default(o)
+            if o["type"] == INT and rng.random() < 0.5:
+                o["range"], o["lo"], o["hi"] = None, None, None
+            t.opts.append(o)
+        byname = {o["name"]: o for o in t.opts}
+        ops = t.lines() + ["create"]
+        sticky = len(ops)
+        for _ in range(rng.choice([1, 2, 3])):
+            words = ["prog"]
+            for nm in rng.sample([short, long_], rng.choice([1, 2, 2])):
+                o = byname[nm]
+                spell = nm
+                q = rng.random()
+                if nm == long_ and q < 0.4:
+                    spell = nm[:rng.randrange(len(short) + 1, len(nm) + 1)]      # abbreviation longer than the short name
+                elif nm == long_ and q < 0.5:
+                    spell = nm[:rng.randrange(3, len(short) + 1)] if len(short) >= 3 else nm   # ambiguous or = the short name
+                if o["type"] == NONE:
+                    words.append(spell if rng.random() < 0.9 else spell + "=1")
+                else:
+                    v = self.value(o, "cmd")
+                    r = rng.random()
+                    if r < 0.6:
+                        words.append(spell + "=" + v)
+                    elif r < 0.95:
+                        words += [spell, v]
+                    else:
+                        words.append(spell)
+            words += rng.choice([[], ["file1"], ["--", "-x"], ["arg", "--seed=1"]])
+            if rng.random() < 0.25:
+                ops.append("spoof s=" + hx(self.spoof_text(words)))
+            else:
+                ops.append("cmdline w=" + ",".join(hx(w) for w in words))
+            ops.append("dump")
+            if rng.random() < 0.5:
+                ops.append("reuse")
+        ops += ["verify", "dump"]
+        self.stats["prefix_pair_cases"] += 1
+        return {"name": "pair%d" % cid, "ops": ops, "sticky": sticky}
+
     # ---------------------------------------------------------------- a case
     def case(self, cid):
+        if cid % 25 == 7:
+            return self.prefix_pair_case(cid)
         rng = self.rng
         t = self.table(cid)
         self.cmd_used = set()                      # options already set on an earlier command line of this case
@@ -551,7 +614,14 @@ class Gen:
                 r = 0.75
             if r < 0.45:
                 ncmd += 1
-                if rng.random() < 0.2 and not spoofed:
+                if spoofed and rng.random() < 0.15:
+                    # a second spoofed command line on the same object: eslEINVAL + message, object unchanged (fix df08745)
+                    kinds.append("spoof2")
+                    ops.append("spoof s=" + hx(self.spoof_text(self.argv(t))))
+                    ops.append("dump")
+                    self.stats["spoof_twice"] += 1
+                    continue
+                if rng.random() < 0.3 and not spoofed:
                     spoofed = True
                     kinds.append("spoof")
                     ops.append("spoof s=" + hx(self.spoof_text(self.argv(t))))
@@ -646,7 +716,7 @@ class C14(Prop):
         "real values: decimal spellings with <= 6 significant digits and |exponent| <= 12, compared as exact rationals in the model (atof comparisons agree there); hex/inf/nan spellings are not modelled and not generated",
         "bytes are ASCII (isspace/char comparison on bytes >= 0x80 not modelled)",
         "in a config file an argument after a boolean option is ignored by the code (documented format: 'an option and an argument (if the option takes an argument)'); modelled as is",
-        "esl_opt_ProcessSpoof called twice on one object (API misuse: the error path frees the first spoof's argv that g->val/argv still point into) is not generated",
+        "a second esl_opt_ProcessSpoof on one object is generated since fix df08745 (eslEINVAL + message, object unchanged); before that fix its error path freed the first spoof's buffers",
         "memory leaks are not part of C14's statement; LeakSanitizer stays on in the harness run (support only): a leak in esl_getopts.c would be reported as a fault",
         "allocation failure paths, esl_opt_DisplayHelp, esl_getopts_Dump, CreateOptsLine, SpoofCmdline, CreateDefaultApp are not modelled",
     ]
@@ -685,6 +755,16 @@ class C14(Prop):
                                           "verify", "dump"], "sticky": n},
             {"name": "reuse", "ops": T + ["create", "spoof s=" + hx("prog -a -n 5 x y"), "cfg s=" + hx("--host h.example.org\n"), "dump", "reuse", "dump",
                                           "spoof s=" + hx("prog -b z"), "cfg s=" + hx("-n 4\n"), "verify", "dump"], "sticky": n},
+            {"name": "prefix-eq", "ops": [opt_line("--seed", 1, "0"), opt_line("--seedfile", 4, None), opt_line("-a", 0), "create",
+                                          W("prog", "--seed=42", "x"), "dump", "reuse", W("prog", "--seedfile=f", "--seed", "7"), "dump", "reuse",
+                                          W("prog", "--see=1"), "dump", W("prog", "--seedf=g", "--seed=3"), "verify", "dump"], "sticky": 4},
+            {"name": "prefix-eq-rev", "ops": [opt_line("--seedfile", 4, None), opt_line("--seed", 1, "0"), "create",
+                                              W("prog", "--seed=42", "x"), "dump", "reuse", W("prog", "--seed", "42", "--seedfile", "f"), "dump", "reuse",
+                                              W("prog", "--seedfile=f=g", "--seed=-1"), "verify", "dump"], "sticky": 3},
+            {"name": "prefix-flag", "ops": [opt_line("--mul", 0), opt_line("--multi", 4, None), "create", W("prog", "--mul", "--multi=one"), "dump", "reuse",
+                                            W("prog", "--mul=1"), "dump", W("prog", "--mult=two", "--mu"), "dump"], "sticky": 3},
+            {"name": "spoof-twice", "ops": T + ["create", "spoof s=" + hx("prog -a --host h1 arg1"), "dump", "spoof s=" + hx("prog -b"), "dump",
+                                                "cfg s=" + hx("-n 3\n"), "dump", "reuse", "spoof s=" + hx("prog -b x"), "verify", "dump"], "sticky": n},
             {"name": "spoof-empty", "ops": T + ["create", "spoof s=-", "dump"], "sticky": n},
             {"name": "cfg-errors", "ops": T + ["create", "cfg s=" + hx("-b\n-b\n"), "dump", "cfg s=" + hx("--mu\n"), "cfg s=" + hx("junk\n"),
                                                "cfg s=" + hx("-n 3 4\n"), "cfg s=" + hx("-n 3 # ok\n-x 2\n"), "dump", "cfg s=" + hx("-a arg\n"), "dump"], "sticky": n},
@@ -738,6 +818,7 @@ class C14(Prop):
 
     # ------------------------------------------------------------------ monitors (on implementation output only)
     def monitor(self, ctx, case, out):
+        spoofed = False
         if len(self._samples) < 3 and case.get("name", "").startswith("gen") and self.nontrivial(case, out) and len(case["ops"]) < 16:
             try:
                 self._samples.append(self.readable(case, out))
@@ -755,6 +836,14 @@ class C14(Prop):
                 continue                      # reported by the engine as a fault
             if w == "reuse" and l != "ok":
                 return Failure("monitor", "Reuse returned %r" % l)
+            if w == "reuse":
+                spoofed = False
+            if w == "spoof" and spoofed:
+                if l != "einval msg":
+                    return Failure("monitor", "a second spoofed command line returned %r (expected eslEINVAL with a message): %s" % (l, op[:200]))
+                continue
+            if w == "spoof":
+                spoofed = True
             if w in ("cmdline", "spoof", "env", "cfg", "verify"):
                 p = l.split()
                 if p[0] not in ("ok", "esyntax"):
